@@ -44,6 +44,8 @@ def check(prog, rep, tier):
     rep.rule('R09.d', 'error half: the set of value lengths each fixed-length attribute decoder accepts is exactly '
                       'the RFC set; ORIGIN accepts exactly {0,1,2}; prefix length > 32 and bad AS_PATH segment '
                       'types are rejected')
+    rep.rule('R09.e', 'add-path identifiers: with add-path on, every decoded prefix carries the 4-octet identifier '
+                      'that was read for it, for every identifier value (0 is legal); with add-path off none does')
     rep.assumptions += ['agreement on concrete values with a reference encoder is not enumerated']
     pa = prog.func(UPD + '.parse_attributes')
 
@@ -143,6 +145,8 @@ def check(prog, rep, tier):
         if not found:
             rep.bad('R09.b', 'mask:%s' % f.qualname, file=f.file, line=f.node.lineno, func=f.qualname,
                     found='no masking of the trailing bits of the last prefix octet', key='mask:%s' % f.qualname)
+
+    addpath_decoders(prog, rep)
 
     # ---------------------------------------------------------------- R09.c
     table = dispatch_table(prog, pa)
@@ -246,6 +250,61 @@ def check(prog, rep, tier):
         rep.bad('R09.d', 'aspath-segment-types', file=f.file, line=f.node.lineno, func=f.qualname,
                 found='segment type check: %s' % (segs,), expected='reject types outside {1,2,3,4}',
                 key='aspath-segment-types')
+
+
+ADDPATH_DECODERS = [
+    (UPD + '.parse_prefix_list', None),
+    ('yabgp.message.attribute.nlri.ipv4_unicast.IPv4Unicast.parse', None),
+    ('yabgp.message.attribute.nlri.ipv6_unicast.IPv6Unicast.parse', None),
+    ('yabgp.message.attribute.nlri.labeled_unicast.LabeledUnicast.parse',
+     'yabgp.message.attribute.nlri.labeled_unicast.ipv4.IPv4LabeledUnicast'),
+]
+
+
+def addpath_decoders(prog, rep):
+    from ..values import BytesV
+    for qual, bind in ADDPATH_DECODERS:
+        try:
+            f = prog.func(qual)
+            bcls = prog.cls(bind) if bind else None
+        except AnalysisError:
+            rep.undecided('R09.e', 'addpath:' + qual, found='decoder not found')
+            continue
+        for on in (True, False):
+            key = 'addpath=%s:%s' % (on, qual.split('yabgp.message.')[-1])
+            try:
+                _f, outs = codec.run(prog, qual, [BytesV([('opq', Opaque('nlri_data', 'bytes'))]), Const(on)], {},
+                                     bind=bcls, may_raise=False, unique=True)
+            except AnalysisError as e:
+                rep.undecided('R09.e', key, file=f.file, line=f.node.lineno, found=str(e))
+                continue
+            bad = None
+            nel = 0
+            for k, v, st in outs:
+                if k != 'val' or not isinstance(v, Obj) or v.oid not in st.heap:
+                    continue
+                for it in st.heap[v.oid].items:
+                    nel += 1
+                    h = st.heap.get(it.oid) if isinstance(it, Obj) else None
+                    has = h is not None and h.kind == 'dict' and 'path_id' in h.items
+                    guards = ' & '.join(('%s' if b else 'not %s') % t for t, b, l, q in st.path[-4:])
+                    if on and not has:
+                        bad = bad or 'a prefix read after a path identifier is returned without it (%s) on the ' \
+                                     'path: %s' % (it.desc() if hasattr(it, 'desc') else it, guards)
+                    elif on:
+                        pv = h.items['path_id']
+                        org = st.syminfo.get(pv.name) if isinstance(pv, Sym) else None
+                        if not (isinstance(pv, Sym) and org and 'I' in str(org[0])):
+                            bad = bad or 'path_id of the decoded prefix is %s, not the identifier read from ' \
+                                         'the wire' % pv.desc()
+                    elif has:
+                        bad = bad or 'add-path off, yet the decoded prefix has a path_id'
+            if bad:
+                rep.bad('R09.e', key, file=f.file, line=f.node.lineno, func=qual, found=bad, key=key)
+            elif nel:
+                rep.ok('R09.e', key, file=f.file, line=f.node.lineno, found='%d decoded element(s) on all paths' % nel)
+            else:
+                rep.undecided('R09.e', key, file=f.file, line=f.node.lineno, found='no path decodes a prefix')
 
 
 def dispatch_table(prog, pa):
